@@ -4,6 +4,7 @@ package main
 // halves of C07/C10), generated with per-property weights.
 
 import (
+	"errors"
 	"fmt"
 	"github.com/openconfig/gribigo/rib"
 	"math/rand/v2"
@@ -612,6 +613,9 @@ func RunSrvHistory(name string, cfg *SrvGenCfg, evs []SEv) (*Trace, error) {
 			break
 		}
 		if err := h.ObsServer(t); err != nil {
+			if errors.Is(err, errHang) {
+				break
+			}
 			return t, err
 		}
 	}
